@@ -205,7 +205,7 @@ func c08AckDel(c *Ctx, v *vocab) {
 		for _, e := range t.Ev {
 			if e.Kind == EvAssign && e.LObj == f {
 				found = true
-				if sig.Params().Len() == 0 || (&Interp{P: c.P, Info: fi.Pkg.TypesInfo}).objOf(e.RHS) != sig.Params().At(0) {
+				if sig.Params().Len() == 0 || evRHSObj(&Interp{P: c.P, Info: fi.Pkg.TypesInfo}, e) != sig.Params().At(0) {
 					okID = false
 				}
 			}
@@ -655,6 +655,9 @@ func c08Offline(c *Ctx, v *vocab) {
 	ac := c.P.Field("broker", "memorySession", "activeClient")
 	info := fi.Pkg.TypesInfo
 	queueOf := func(e *Event) *types.Var {
+		if e.ChanField != nil {
+			return e.ChanField
+		}
 		if fv, ok := e.ChanObj.(*types.Var); ok && fv.IsField() {
 			return fv
 		}
